@@ -86,6 +86,11 @@ func runC17(r *Run, p *Prog) {
 				func(in ssa.Instruction) bool { return isSetter(in, func(a string) bool { return a == dlT }) })
 			r.Ob("D1", fn, "before the helper starts, the "+op.IODir+" deadline is set to the context's deadline on every path (unconditionally)", op.Go.Pos(), ok,
 				"the helper can be started without Set"+strings.Title(op.IODir)+"Deadline(ctx deadline): a context deadline is not honoured, and a deadline armed by an earlier operation stays in force for this one", witnessPos(p, w)...)
+			// no way through the operation avoids the arming call (e.g. a fast path doing the I/O directly)
+			ok2, w2 := everyPathPasses(op.Fn, nil, isReturn,
+				func(in ssa.Instruction) bool { return isSetter(in, func(a string) bool { return a == dlT }) })
+			r.Ob("D1", fn, "every path through the operation first sets the "+op.IODir+" deadline to the context's deadline", op.Fn.Pos(), ok2,
+				"the operation can complete without calling Set"+strings.Title(op.IODir)+"Deadline(ctx deadline): a deadline left armed by an earlier operation with a deadline context is then still in force and makes this one fail with a timeout although its own context is live", witnessPos(p, w2)...)
 			// no deadline setter of the wrong kind
 			for _, b := range op.Fn.Blocks {
 				for _, in := range b.Instrs {
@@ -272,6 +277,29 @@ func runC17(r *Run, p *Prog) {
 		if len(seen) == 0 {
 			r.Unresolved("D6", "repo transport types handed to the connection wrapper's constructor")
 		}
+		// the pipe ends must stay in non-blocking mode: (*os.File).Fd / SyscallConn on them switches the descriptor to
+		// blocking mode, after which deadlines are accepted but no longer interrupt a blocked read or write
+		tainted := pipeTaint(p)
+		nfd := 0
+		for _, f := range p.FuncsOf(pkgVarlink) {
+			for _, cs := range callsIn(f, false) {
+				name := calleeName(cs.Common)
+				var recv ssa.Value
+				switch {
+				case name == "os.File.Fd" || name == "os.File.SyscallConn":
+					recv = cs.Common.Args[0]
+				case cs.Common.IsInvoke() && (cs.Common.Method.Name() == "Fd" || cs.Common.Method.Name() == "SyscallConn"):
+					recv = cs.Common.Value
+					name = "(interface)." + cs.Common.Method.Name()
+				default:
+					continue
+				}
+				nfd++
+				r.Ob("D6", shortName(f), "no "+name+" on a bridge pipe end", cs.Instr.Pos(), !tainted[recv],
+					name+" is called on a pipe end of the bridge transport: this puts the descriptor into blocking mode, so SetReadDeadline/SetWriteDeadline still return nil but no longer unblock pending I/O - a cancelled call on a bridge hangs")
+			}
+		}
+		r.Stat("D6_fd_calls", nfd)
 	})
 	_ = cg
 	_ = token.NoPos
@@ -496,4 +524,87 @@ func dynTypesOf(p *Prog, v ssa.Value, depth int) []types.Type {
 		return out
 	}
 	return nil
+}
+
+// pipeTaint: SSA values of package varlink that may be one of the bridge's pipe ends (results of exec.Cmd.StdinPipe /
+// StdoutPipe), propagated through interface conversions, assertions, phis, struct members of repo literals and
+// parameters of repo functions.
+func pipeTaint(p *Prog) map[ssa.Value]bool {
+	t := map[ssa.Value]bool{}
+	fns := p.FuncsOf(pkgVarlink)
+	taintedField := map[string]bool{}
+	changed := true
+	mark := func(v ssa.Value) {
+		if v != nil && !t[v] {
+			t[v] = true
+			changed = true
+		}
+	}
+	for round := 0; changed && round < 20; round++ {
+		changed = false
+		for _, f := range fns {
+			for _, b := range f.Blocks {
+				for _, in := range b.Instrs {
+					switch x := in.(type) {
+					case *ssa.Extract:
+						if c, ok := x.Tuple.(*ssa.Call); ok && x.Index == 0 {
+							n := calleeName(&c.Call)
+							if n == "exec.Cmd.StdinPipe" || n == "exec.Cmd.StdoutPipe" || n == "exec.Cmd.StderrPipe" {
+								mark(x)
+							}
+						}
+						if t[x.Tuple] {
+							mark(x)
+						}
+					case *ssa.TypeAssert:
+						if t[x.X] {
+							mark(x)
+						}
+					case *ssa.ChangeInterface:
+						if t[x.X] {
+							mark(x)
+						}
+					case *ssa.MakeInterface:
+						if t[x.X] {
+							mark(x)
+						}
+					case *ssa.Phi:
+						for _, e := range x.Edges {
+							if t[e] {
+								mark(x)
+							}
+						}
+					case *ssa.Store:
+						if t[x.Val] {
+							if fa, ok := x.Addr.(*ssa.FieldAddr); ok {
+								k := fieldName(fa.X, fa.Field)
+								if !taintedField[k] {
+									taintedField[k] = true
+									changed = true
+								}
+							}
+						}
+					case *ssa.UnOp:
+						if fa, ok := x.X.(*ssa.FieldAddr); ok && taintedField[fieldName(fa.X, fa.Field)] {
+							mark(x)
+						}
+					case *ssa.Field:
+						if taintedField[fieldName(x.X, x.Field)] {
+							mark(x)
+						}
+					case ssa.CallInstruction:
+						if callee := staticTarget(x.Common()); callee != nil && p.InRepo(callee) {
+							off := 0
+							for i, a := range x.Common().Args {
+								if t[a] && i+off < len(callee.Params) {
+									mark(callee.Params[i+off])
+								}
+							}
+						}
+					}
+				}
+			}
+		}
+	}
+	return t
 }
